@@ -241,6 +241,21 @@ func c11targeted(c *mon.Ctx, rng *rand.Rand) {
 	for j := int64(1); j <= 40; j++ {
 		us = append(us, new(big.Int).Sub(ref.P, big.NewInt(j)), big.NewInt(j), new(big.Int).Add(new(big.Int).Lsh(bigOne, 192), big.NewInt(j)))
 	}
+	// x/y values that are small or limb-structured in the library's internal (Montgomery) representation, k*2^-256 mod p,
+	// and limb-structured values in the ordinary sense
+	for k := int64(1); k <= 60; k++ {
+		us = append(us, ref.MulP(big.NewInt(k), rInvFp))
+	}
+	for _, k := range []*big.Int{new(big.Int).Sub(new(big.Int).Lsh(bigOne, 64), bigOne), new(big.Int).Lsh(bigOne, 63), new(big.Int).Lsh(bigOne, 64), new(big.Int).Lsh(bigOne, 128), new(big.Int).SetUint64(rng.Uint64()), new(big.Int).SetUint64(rng.Uint64())} {
+		for j := int64(0); j < 6; j++ {
+			us = append(us, ref.MulP(new(big.Int).Add(k, big.NewInt(j)), rInvFp))
+		}
+	}
+	for _, l := range repLambdas {
+		for j := int64(0); j < 4; j++ {
+			us = append(us, new(big.Int).Mod(new(big.Int).Add(l, big.NewInt(j)), ref.P))
+		}
+	}
 	found := 0
 	for _, u := range us {
 		pt, ok := c11pointWithRatio(u)
@@ -260,7 +275,7 @@ func c11targeted(c *mon.Ctx, rng *rand.Rand) {
 			got.SetUint64(777)
 			e.MapToScalarField(&got)
 			if FrToBig(&got).Cmp(want) != 0 {
-				c.Fail("map-differs-from-reference/targeted-ratio", fmt.Sprintf("MapToScalarField of an element with x/y = %s (adjacent to a multiple of r) is %s, want %s", u.Text(16), FrToBig(&got).Text(16), want.Text(16)), nil)
+				c.Fail("map-differs-from-reference/targeted-ratio", fmt.Sprintf("MapToScalarField of an element with x/y = %s (a targeted value: adjacent to a multiple of r, Montgomery-small or limb-structured) is %s, want %s", u.Text(16), FrToBig(&got).Text(16), want.Text(16)), nil)
 				break
 			}
 			var b1 fr.Element
